@@ -84,17 +84,7 @@ func (s *sweep) limit(L int, stompBroker *rig.StompBroker) {
 		}
 		t.stop()
 	}
-	// HTTP response limit (client-requested, enforced by the server on the
-	// unframed buffer: 4-byte band unconstrained)
-	if t, err := newHTTPTarget(s.proto, "response", L); err != nil {
-		fail("http leg", err)
-	} else {
-		t.noCanary = s.canResp > L
-		for _, sh := range respShapes {
-			s.each("http", "response", "resp", sh, L, targets, func(ci caseInfo) { t.responseCase(run, ci) })
-		}
-		t.stop()
-	}
+	s.httpResponse(L, respShapes)
 	// a user-written FTransport that relies on the limit it declares
 	if t, err := newCustomTransportTarget(s.proto, L); err != nil {
 		fail("custom transport leg", err)
@@ -122,6 +112,28 @@ func (s *sweep) limit(L int, stompBroker *rig.StompBroker) {
 	for _, sh := range pubShapes {
 		s.each("custom-publisher", "publish", "pub", sh, L, targets, func(ci caseInfo) { t.publishCase(run, ci, s.hdrPub) })
 	}
+}
+
+// httpResponse: the client-requested response limit (x-frugal-payload-limit),
+// which the handler compares with the UNFRAMED response: the sweep is centred
+// on framed size L+4 so that unframed sizes L-8..L+8 are all hit, and the
+// expected outcome is exact (no unconstrained band).
+func (s *sweep) httpResponse(L int, shapeNames []string) {
+	run := s.run
+	var targets []int
+	for _, tg := range s.targetsFor(L) {
+		targets = append(targets, tg+4)
+	}
+	t, err := newHTTPTarget(s.proto, "response", L)
+	if err != nil {
+		run.Inconclusive(fmt.Sprintf("http leg (%s, limit %d): %v", s.proto, L, err))
+		return
+	}
+	t.noCanary = s.canResp-4 > L
+	for _, sh := range shapeNames {
+		s.each("http", "response", "resp", sh, L, targets, func(ci caseInfo) { t.responseCase(run, ci) })
+	}
+	t.stop()
 }
 
 func (s *sweep) nats(broker *rig.NatsServer) {
@@ -156,7 +168,7 @@ func (s *sweep) nats(broker *rig.NatsServer) {
 func main() {
 	rig.Quiet()
 	run := ev.New("C12", ev.ArgTier(), "fault_enumeration")
-	run.Rule("a case is one message (shape: large string first / binary in the middle / string last / map container / last call argument / string result; protocol) whose framed size, MEASURED at the wire tap of an unlimited leg, lies at limit-8..limit+8 (step 1) or far from it, sent through a leg with that limit: HTTP request limit, HTTP client-requested response limit (4-byte band unconstrained), NATS' fixed 1 MiB (request, server response, publish; broker with max_payload 1 MiB), STOMP maxPublishSize, and user-written transports that only declare a limit. Distinct = (leg, protocol, direction, shape, limit, size-limit). After every failure a canary call / publish on the same client and server must succeed.")
+	run.Rule("a case is one message (shape: large string first / binary in the middle / string last / map container / last call argument / string result; protocol) whose framed size, MEASURED at the wire tap of an unlimited leg, lies at limit-8..limit+8 (step 1) or far from it, sent through a leg with that limit: HTTP request limit, HTTP client-requested response limit (defined on the unframed response: measured frame minus 4; also at the fixed limits 1000, 1001, 1002, 4096 = every residue mod 3), one HTTP handler shared by clients with different response limits (sequentially and concurrently), FTransport-level histories reusing the FContext of a refused request, NATS' fixed 1 MiB (request, server response, publish; broker with max_payload 1 MiB), STOMP maxPublishSize, and user-written transports that only declare a limit. Distinct = (leg, protocol, direction, shape, limit, size-limit). After every failure a canary call / publish on the same client and server must succeed.")
 	run.Assume("the wire taps of the rig (HTTP round tripper, NATS subscriptions, STOMP broker), the embedded nats-server and net/http; header widths are constant by construction (fixed cid, 7-digit op ids, 4-digit timeouts), checked by comparing the frame length on the limited leg with the measurement")
 
 	natsBroker, err := rig.StartNatsMaxPayload(mib)
@@ -219,6 +231,11 @@ func main() {
 			}
 			for _, L := range limits {
 				s.limit(L, stompBroker)
+			}
+			// every residue of the limit modulo 3 (base64 groups)
+			for _, L := range []int{1000, 1001, 1002, 4096} {
+				s.httpResponse(L, []string{"getbig", "first", "last"})
+				s.sharedHandler(L)
 			}
 			s.nats(natsBroker)
 			s.direct(natsBroker, limits)
